@@ -181,6 +181,34 @@ def assumes_sorted(ctx, fi, o, rule):
   return n
 
 
+def one_key_per_state_table(ctx, fi, rule='ORD/one-key-per-state-table'):
+  """A table that remembers "the latest event per (instrument, controller)" is written in more than one place; every store uses the
+  same key.  A store keyed by another attribute of the event (its value instead of its number) files the event under a key the
+  other stores never look at - and two events that collide under the wrong key overwrite each other in storage order."""
+  fn = fi.node
+  by_table = {}
+  for st in U.walk_stmts(fn):
+    if isinstance(st, ast.Assign) and len(st.targets) == 1 and isinstance(st.targets[0], ast.Subscript) and isinstance(st.targets[0].value, ast.Name) and \
+        isinstance(st.targets[0].slice, ast.Tuple) and isinstance(st.value, ast.Name):
+      t = st.targets[0]
+      # the key with the stored event's own name abstracted, so that `cc` and `pedal_event` stores compare
+      key = tuple(norm_text(e).replace(st.value.id + '.', '<event>.') for e in t.slice.elts)
+      by_table.setdefault(t.value.id, []).append((st, key))
+  for name, lst in sorted(by_table.items()):
+    if len(lst) < 2:
+      continue
+    keys = sorted(set(k for _s, k in lst))
+    cons = '%s: every store into %s uses one key' % (fi.qualname, name)
+    if len(keys) == 1:
+      ctx.ob(rule, fi, lst[0][0], True, '%d stores into %s, all keyed by %s' % (len(lst), name, ', '.join(keys[0])), construct=cons)
+    else:
+      common = max(keys, key=lambda k: sum(1 for _s, k2 in lst if k2 == k))
+      odd = next(s_ for s_, k in lst if k != common)
+      ctx.ob(rule, fi, odd, False, '%s is keyed by (%s) in %d store(s) and by (%s) in `%s`: the event is remembered under a key the other stores and the carry-forward never use, and which '
+             'of two events that share that key is carried depends on the order in which they are stored' % (
+                 name, ', '.join(common), sum(1 for _s, k in lst if k == common), ', '.join(next(k for s_, k in lst if s_ is odd)), norm_text(odd)[:70]), construct=cons, definite=True)
+
+
 def assumes_sorted_in(ctx, names, rule='ORD/assumes-sorted'):
   """assumes_sorted for the scope functions with the given names (used by the properties those functions are anchored in)."""
   for fq, params in SCOPE:
@@ -231,6 +259,7 @@ def run(ctx):
         else:
           ctx.ob('ORD/stored-prefix', fi, c, True, '%s runs over %s' % (d, p.detail or 'a sequence that is not in storage order'), construct='%s over %s' % (d, norm_text(c.args[1])))
     assumes_sorted(ctx, fi, o, 'ORD/assumes-sorted')
+    one_key_per_state_table(ctx, fi)
     for s in sites:
       if s.kind == 'sorted-traversal':
         ctx.ob('ORD/sorted-traversal', fi, s.stmt, True, 'iterates %s' % s.prov.detail, construct=s.what)
